@@ -1,11 +1,54 @@
 #!/venv/bin/python
 """
 C04 constants re-extracted from the CURRENT tree on every run -> lean/Ptk/Gen/C04.lean:
-the two SimpleCache sizes of KeyBindings (key_binding/key_bindings.py KeyBindings.__init__).
+the two SimpleCache sizes of KeyBindings (key_binding/key_bindings.py KeyBindings.__init__),
+the values of the `Keys` enumeration in definition order and `KEY_ALIASES` (keys.py) that
+`key_bindings._parse_key` consults, and the cap of `KeyPressEvent.arg` (key_processor.py).
 """
 from __future__ import annotations
 
 import gen_tables as G
+
+
+def _arg_cap() -> int:
+    """smallest n with KeyPressEvent(arg=str(n)).arg == 1 (n > 1), found by bisection on the real property"""
+    try:
+        from prompt_toolkit.key_binding.key_processor import KeyPressEvent
+
+        class _E(KeyPressEvent):
+            def __init__(self, a):
+                self._arg = a
+
+        def capped(n):
+            return _E(str(n)).arg == 1
+
+        lo, hi = 2, 10 ** 12
+        if not capped(hi):
+            return 0
+        while lo < hi:
+            mid = (lo + hi) // 2
+            if capped(mid):
+                hi = mid
+            else:
+                lo = mid + 1
+        return lo
+    except Exception:
+        return 1000000
+
+
+def _rmk_value_error() -> bool:
+    try:
+        from prompt_toolkit.key_binding.key_bindings import KeyBindings
+
+        try:
+            KeyBindings().remove("a")
+        except ValueError:
+            return True
+        except Exception:
+            return False
+    except Exception:
+        pass
+    return False
 
 
 def generate() -> None:
@@ -22,5 +65,22 @@ def generate() -> None:
     body += f"def maxFor : Nat := {max_for}\n\n"
     body += "/-- KeyBindings._get_bindings_starting_with_keys_cache.maxsize -/\n"
     body += f"def maxStart : Nat := {max_start}\n\n"
+    try:
+        from prompt_toolkit.keys import KEY_ALIASES, Keys
+
+        values = [k.value for k in Keys]
+        aliases = list(KEY_ALIASES.items())
+    except Exception:
+        values, aliases = [], []
+    body += "/-- `[k.value for k in Keys]` (definition order; enum aliases collapse) -/\n"
+    body += "def keyValues : List (List Char) := [\n  " + ",\n  ".join(G.ltext(v) for v in values) + "]\n\n"
+    body += "/-- `KEY_ALIASES.items()` -/\n"
+    body += ("def keyAliases : List (List Char × List Char) := [\n  "
+             + ",\n  ".join("(%s, %s)" % (G.ltext(a), G.ltext(t)) for a, t in aliases) + "]\n\n")
+    body += ("/-- `KeyBindings().remove('a')` (nothing bound) raises the documented ValueError "
+             "(False: UnboundLocalError, the behaviour before proposed_fixes/C04-remove-unknown-keys.diff); probed -/\n")
+    body += f"def rmkValueError : Bool := {'true' if _rmk_value_error() else 'false'}\n\n"
+    body += "/-- the threshold in `KeyPressEvent.arg` (`if int(result) >= N: result = 1`), probed -/\n"
+    body += f"def argCap : Nat := {_arg_cap()}\n\n"
     body += "end Ptk.Gen.C04\n"
     G.write("C04.lean", body)
